@@ -331,15 +331,12 @@ Record har_entry_t := {
 Definition LBR : N := 91%N.
 Definition RBR : N := 93%N.
 
-(* cassettes.py:358-435: everything credential-bearing is read from the sanitised copies, i.e. the
-   HAR entry is a function of what the VCR entry shows.  None = the writer raises: IndexError on a
-   header without values, or ValueError from urlparse(uri) (cassettes.py:363) when the netloc has a
-   square bracket that is not an IP literal - which is what the default marker [Filtered]@host is
-   (IPv6 literal hosts are outside the model) *)
-Definition har_of (e : url * mdict * option mdict * str) : option har_entry_t :=
-  match e with
-  | (uri, rq, rs, op) =>
-    if mem LBR (u_netloc uri) || mem RBR (u_netloc uri) then None else
+(* cassettes.py:353-436 (after repo fix 8fd7266e): everything credential-bearing is read from the
+   sanitised copies, i.e. the HAR entry is a function of what the VCR entry shows.  The query string is
+   cut out of the URI text (partition on # then on ?, cassettes.py:363-364) and read with parse_qsl:
+   on the parsed view that is u_query of the (sanitised) URI (a marker containing ? or # is outside
+   the model).  None = the writer raises IndexError on a header without values. *)
+Definition har_body (uri : url) (rq : mdict) (rs : option mdict) (op : str) : option har_entry_t :=
     match first_values rq with
     | None => None
     | Some rqf =>
@@ -355,10 +352,28 @@ Definition har_of (e : url * mdict * option mdict * str) : option har_entry_t :=
                                   h_open := op |}
             end
         end
-    end
-  end.
+    end.
+
+Definition har_of (e : url * mdict * option mdict * str) : option har_entry_t :=
+  match e with (uri, rq, rs, op) => har_body uri rq rs op end.
 
 Definition har_entry (san : bool) (c : config) (i : interaction) : option har_entry_t := har_of (vcr_entry san c i).
+
+(* SENTINEL, not the current code: har_writer before repo fix 8fd7266e took the query with
+   urlparse(uri), which raises ValueError when the netloc has a square bracket that is not an IP
+   literal - which is what the default marker [Filtered]@host is.  Kept to state what the fix changed. *)
+Definition har_of_before_8fd7266e (e : url * mdict * option mdict * str) : option har_entry_t :=
+  match e with
+  | (uri, rq, rs, op) =>
+      if mem LBR (u_netloc uri) || mem RBR (u_netloc uri) then None else har_body uri rq rs op
+  end.
+Definition har_entry_before_8fd7266e (san : bool) (c : config) (i : interaction) : option har_entry_t :=
+  har_of_before_8fd7266e (vcr_entry san c i).
+
+(* every recorded header has at least one value (always so for real HTTP traffic) *)
+Definition values_nonempty (h : mdict) : bool := forallb (fun kv => match snd kv with [] => false | _ => true end) h.
+Definition headers_have_values (i : interaction) : bool :=
+  values_nonempty (i_req_headers i) && match i_resp_headers i with Some h => values_nonempty h | None => true end.
 
 (* -------- the curl code sample: Case.as_curl_command -> prepare_request(sanitize) ->
    requests Request prepare -> curl.generate.
